@@ -4,6 +4,7 @@ from vlib.model import AnalysisError, dump, kwarg, call_name
 from vlib.cfg import cfg_of, node_calls
 from vlib.flow import Explorer, states_at, count_paths, dominators, reachable_avoiding
 from vlib import prov, q, shape, spec
+from rules import common
 
 META = {
     "explanation": (
@@ -292,10 +293,9 @@ def check(ck):
     for region, rep in spec.VERSION_REGIONS.items():
         for ptag, pval in (("params", shape.Sym("params", truthy=True, pytype=list)), ("params", shape.Sym("params", truthy=True, pytype=dict)),
                            ("noparams", shape.K(None))):
-            ev = shape.Evaluator(prog, "jsonrpc")
+            ev = shape.Evaluator(prog, "jsonrpc", lenient=True)
 
-            def mk(rep=rep):
-                return shape.Obj("Payload", {"id": shape.Sym("rpcid", truthy=True), "version": shape.K(rep)})
+            mk = common.payload_via_init(prog, rep, 2.0)       # (through the constructor: whatever it derives from the version is there)
             res = ev.run(pn, {"method": shape.Sym("method", truthy=True, pytype=str), "params": pval}, mk)
             for (_tr, out) in res:
                 if out[0] != "return" or not isinstance(out[1], shape.D):
